@@ -114,6 +114,8 @@ def key_from(prop, what, view, g, cls, variant, vec=None):
     if prop == "C02":
         if what == "err":
             return "C02:Parse:%s:%s" % ("missing-error" if variant == "true" else "unexpected-error", cls)
+        if what == "panic":
+            return "C02:Parse:panic:%s" % cls
         if what in ("id", "off", "addr"):
             return "C02:Parse:%s:%s:%s" % (what, g, cls)
         return "C02:%s.%s" % (view, g)                          # getter
@@ -329,6 +331,10 @@ def short(vec):
         keep = {k: v for k, v in s.items() if k not in ("fam",) and v not in (0, "na", "none")}
         if vec.get("cfg", "default") != "default":
             keep["session"] = vec["cfg"]
+        if vec.get("state", "none") != "none":
+            keep["session_state"] = vec["state"]
+        if vec.get("log", "error") != "error":
+            keep["logger"] = vec["log"]
         if vec["fam"] == "alloc":
             keep.update({"status": vec.get("status"), "quiet": vec.get("x", {}).get("quiet"), "log": vec.get("x", {}).get("log")})
         return json.dumps(keep, sort_keys=True)
